@@ -133,10 +133,6 @@ fn fnv<T: Hash + ?Sized>(t: &T) -> u64 {
     h.finish()
 }
 
-fn ref_cmp(a: &str, b: &str) -> Ordering {
-    a.bytes().map(|c| c.to_ascii_uppercase()).cmp(b.bytes().map(|c| c.to_ascii_uppercase()))
-}
-
 fn test(c: &Case) -> TestResult {
     let srcs: Vec<String> = c.derive.iter().map(|d| derive(&c.base, d)).collect();
     let built: Vec<(OwnedVarName, bool)> = srcs.iter().zip(c.ctor.iter()).map(|(s, k)| construct(*k, s)).collect();
@@ -148,17 +144,17 @@ fn test(c: &Case) -> TestResult {
         let upper = s.to_ascii_uppercase();
         if *norm {
             vensure!(got == upper, "c19-normalise", "normalising constructor {} of {s:?} reads back as {got:?}, expected {upper:?}", c.ctor[i] % N_CTORS);
-        } else if INTERNED.contains(&got) && INTERNED.contains(&s.as_str()) {
+        } else if INTERNED.contains(&s.as_str()) {
+            // "interned names read back as their canonical spelling"; for other spellings and
+            // for custom names the statement does not fix what a non-normalising constructor
+            // keeps (only that it is the same name ignoring case, checked above)
             vensure!(got == s, "c19-interned-spelling", "interned name {s:?} reads back as {got:?}");
-        } else if !INTERNED.contains(&s.as_str()) {
-            vensure!(got == s, "c19-spelling", "non-normalising constructor {} changed the spelling {s:?} -> {got:?}", c.ctor[i] % N_CTORS);
         }
         if c.ctor[i] % N_CTORS == 5 {
             let mut m = s.clone();
             let _ = OwnedVarName::from_mut_str(&mut m);
             vensure!(m == upper, "c19-normalise", "from_mut_str left its argument as {m:?}");
         }
-        vensure!(o.to_string() == got && format!("{}", VarName::new(s)) == *s, "c19-display", "Display differs from the stored string");
         // owned and borrowed view of the same value agree
         let v: &VarName = o.borrow();
         vensure!(record(o) == record(v), "c19-borrow-hash", "owned and borrowed hash streams differ for {got:?}");
@@ -172,15 +168,24 @@ fn test(c: &Case) -> TestResult {
             let (a, b) = (&built[i].0, &built[j].0);
             let (sa, sb) = (&srcs[i], &srcs[j]);
             let want_eq = sa.eq_ignore_ascii_case(sb);
-            let want_ord = ref_cmp(sa, sb);
-            vensure!((want_ord == Ordering::Equal) == want_eq, "harness-inconsistent", "reference relations disagree");
             let (va, vb): (&VarName, &VarName) = (VarName::new(sa), VarName::new(sb));
             vensure!((a == b) == want_eq, "c19-owned-eq", "OwnedVarName {sa:?} (ctor {}) == {sb:?} (ctor {}) gives {}, expected {want_eq}", c.ctor[i] % N_CTORS, c.ctor[j] % N_CTORS, a == b);
             vensure!((va == vb) == want_eq, "c19-borrowed-eq", "VarName {sa:?} == {sb:?} gives {}, expected {want_eq}", va == vb);
-            vensure!(a.cmp(b) == want_ord, "c19-owned-ord", "OwnedVarName {sa:?} (ctor {}) cmp {sb:?} (ctor {}) gives {:?}, expected {want_ord:?}", c.ctor[i] % N_CTORS, c.ctor[j] % N_CTORS, a.cmp(b));
-            vensure!(va.cmp(vb) == want_ord && va.partial_cmp(vb) == Some(want_ord) && a.partial_cmp(b) == Some(want_ord), "c19-borrowed-ord", "VarName {sa:?} cmp {sb:?} gives {:?}, expected {want_ord:?}", va.cmp(vb));
+            // the statement fixes no particular order: "a total order consistent with that
+            // equality" = Equal exactly for equal names, antisymmetric, transitive (below), and
+            // the same for every spelling / representation of the same two names
             let (ab, bb): (&VarName, &VarName) = (a.borrow(), b.borrow());
-            vensure!(ab.cmp(bb) == want_ord && (ab == bb) == want_eq, "c19-borrow-consistency", "borrowed views of {sa:?}/{sb:?} order differently from the owned values");
+            let o = a.cmp(b);
+            vensure!((o == Ordering::Equal) == want_eq, "c19-owned-ord", "OwnedVarName {sa:?} (ctor {}) cmp {sb:?} (ctor {}) gives {o:?} although the names are {}", c.ctor[i] % N_CTORS, c.ctor[j] % N_CTORS, if want_eq { "equal" } else { "different" });
+            vensure!(b.cmp(a) == o.reverse(), "c19-owned-ord", "OwnedVarName order is not antisymmetric on {sa:?} / {sb:?}: {o:?} and {:?}", b.cmp(a));
+            vensure!(a.partial_cmp(b) == Some(o) && va.partial_cmp(vb) == Some(va.cmp(vb)), "c19-owned-ord", "partial_cmp disagrees with cmp on {sa:?} / {sb:?}");
+            vensure!(va.cmp(vb) == o, "c19-borrowed-ord", "VarName {sa:?} cmp {sb:?} gives {:?} but the owned names built from the same strings order {o:?}", va.cmp(vb));
+            vensure!(ab.cmp(bb) == o && (ab == bb) == want_eq, "c19-borrow-consistency", "borrowed views of {sa:?}/{sb:?} order differently from the owned values");
+            // congruence: any other spelling of the same two names orders the same way
+            for (xa, xb) in [(sa.to_ascii_uppercase(), sb.to_ascii_lowercase()), (sa.to_ascii_lowercase(), sb.to_ascii_uppercase())] {
+                vensure!(VarName::new(&xa).cmp(VarName::new(&xb)) == o, "c19-borrowed-ord", "VarName {xa:?} cmp {xb:?} gives {:?} but {sa:?} cmp {sb:?} gives {o:?} (same names, different case)", VarName::new(&xa).cmp(VarName::new(&xb)));
+                vensure!(OwnedVarName::from(xa.as_str()).cmp(&OwnedVarName::from(xb.clone())) == o, "c19-owned-ord", "owned {xa:?} cmp {xb:?} differs from {sa:?} cmp {sb:?} = {o:?} (same names, different case)");
+            }
             if want_eq {
                 any_equal |= i != j;
                 if sa != sb {
@@ -192,12 +197,21 @@ fn test(c: &Case) -> TestResult {
             }
         }
     }
-    // transitivity / antisymmetry on the triple follow from agreement with the reference order,
-    // which is a total order; check sort stability as an end-to-end consequence
+    // transitivity on the triple, and sorting as an end-to-end consequence (equal names end up
+    // adjacent)
+    for (i, j, k) in [(0, 1, 2), (0, 2, 1), (1, 0, 2), (1, 2, 0), (2, 0, 1), (2, 1, 0)] {
+        let (a, b, d) = (&built[i].0, &built[j].0, &built[k].0);
+        if a.cmp(b) != Ordering::Greater && b.cmp(d) != Ordering::Greater {
+            vensure!(a.cmp(d) != Ordering::Greater, "c19-owned-ord", "order is not transitive: {:?} <= {:?} <= {:?} but {:?} > {:?}", srcs[i], srcs[j], srcs[k], srcs[i], srcs[k]);
+        }
+    }
     let mut sorted: Vec<&OwnedVarName> = built.iter().map(|b| &b.0).collect();
     sorted.sort();
-    for w in sorted.windows(2) {
-        vensure!(ref_cmp(w[0].as_ref(), w[1].as_ref()) != Ordering::Greater, "c19-owned-ord", "sorting three names produced a pair out of reference order");
+    {
+        let s0: &str = sorted[0].as_ref();
+        let s1: &str = sorted[1].as_ref();
+        let s2: &str = sorted[2].as_ref();
+        vensure!(!(s0.eq_ignore_ascii_case(s2) && !s0.eq_ignore_ascii_case(s1)), "c19-owned-ord", "sorting put {s1:?} between the equal names {s0:?} and {s2:?}");
     }
     // --- map lookups by any spelling
     let mut hm: HashMap<OwnedVarName, usize> = HashMap::new();
@@ -292,13 +306,31 @@ fn test_intern(c: &InternCase) -> TestResult {
             }
         }
     }
-    // order against the neighbours in the table follows the upper-cased byte order
+    // order against the whole table: Equal only for the name itself, antisymmetric, independent
+    // of spelling and constructor; the interned type's own order is total on the table
     for other in INTERNED {
         let o = OwnedVarName::from(*other);
         let me = construct(c.ctor_a, &variants[2]).0;
-        vensure!(me.cmp(&o) == ref_cmp(&c.name, other), "c19-owned-ord", "{:?} (ctor {}) cmp interned {other:?} gives {:?}, expected {:?}", variants[2], c.ctor_a % N_CTORS, me.cmp(&o), ref_cmp(&c.name, other));
+        let canon_me = OwnedVarName::from(c.name.as_str());
+        let same = other.eq_ignore_ascii_case(&c.name);
+        let r = me.cmp(&o);
+        vensure!((r == Ordering::Equal) == same, "c19-owned-ord", "{:?} (ctor {}) cmp interned {other:?} gives {r:?}", variants[2], c.ctor_a % N_CTORS);
+        vensure!(o.cmp(&me) == r.reverse() && canon_me.cmp(&o) == r, "c19-owned-ord", "{:?} (ctor {}) cmp interned {other:?} gives {r:?}, but reversed {:?} / canonical spelling {:?}", variants[2], c.ctor_a % N_CTORS, o.cmp(&me), canon_me.cmp(&o));
         let so: StaticVarName = other.parse().map_err(|_| Fail::new("c19-interned-parse", "parse"))?;
-        vensure!(st.cmp(&so) == ref_cmp(&c.name, other), "c19-static-ord", "StaticVarName {:?} cmp {other:?} gives {:?}", c.name, st.cmp(&so));
+        let rs = st.cmp(&so);
+        vensure!((rs == Ordering::Equal) == same && so.cmp(&st) == rs.reverse(), "c19-static-ord", "StaticVarName {:?} cmp {other:?} gives {rs:?} (reverse {:?})", c.name, so.cmp(&st));
+    }
+    {
+        let mut table: Vec<StaticVarName> = Vec::new();
+        for n in INTERNED {
+            table.push(n.parse().map_err(|_| Fail::new("c19-interned-parse", "parse"))?);
+        }
+        table.sort();
+        for i in 0..table.len() {
+            for j in i + 1..table.len() {
+                vensure!(table[i].cmp(&table[j]) == Ordering::Less, "c19-static-ord", "interned names do not sort into a strict chain: {:?} !< {:?}", table[i], table[j]);
+            }
+        }
     }
     Ok(Outcome::new(true))
 }
